@@ -39,3 +39,18 @@ package cas
 //@   props C17
 //@   ensures answers-with-what-is-cached-under-that-key: r1 ==> old(key in df.objects) && r0 == old(df.objects[key].directory)
 //@   ensures misses-only-when-not-cached: !r1 ==> !old(key in df.objects)
+
+// Input files materialised on a native file system: they are created without
+// any write permission (an action cannot rewrite a file that later actions get
+// through the hard-linking cache), executable exactly when asked for, and a
+// file that could not be fetched or stamped completely is not left behind.
+//@ ghost map filecreated(ref) int zero
+//@ ghost map fileremoved(ref) int zero
+//@ func (*blobAccessFileFetcher).GetFile
+//@   props C17
+//@   at call CreateExcl#1 assert input-files-are-created-without-any-write-permission: arg0 & 146 == 0
+//@   at call CreateExcl#1 assert executable-exactly-when-asked-for: (arg0 & 73 != 0) == isExecutable && arg0 & 292 == 292
+//@   at call OpenAppend#1 ghostset filecreated[nil] = ite(r1 == nil, 1, 0)
+//@   at call Remove#1 ghostset fileremoved[nil] = 1
+//@   at call Remove#2 ghostset fileremoved[nil] = 1
+//@   ensures an-incomplete-input-file-is-not-left-behind: r0 != nil && filecreated(nil) == 1 ==> fileremoved(nil) == 1
